@@ -656,7 +656,14 @@ def r8_rewritten_sites_pass_arguments_intact(ctx):
     law_self_first(ctx)
 
 
+def r7_signature_analysis(ctx):
+    from . import arganal
+
+    arganal.law(ctx, "required-iff-everywhere", "partition", "conflicts-rejected", "is-method")
+
+
 RULES = [
+    ("C03.R7", "P1", r7_signature_analysis, "the signature analysis requires a parameter only where every method does (abstract execution of the analyser)"),
     ("C03.R8", "P1", r8_rewritten_sites_pass_arguments_intact, "rewritten recurse/call_next sites pass exactly the arguments written"),
     ("C03.R1", "P1", r1_pure_handover, "pure hand-over"),
     ("C03.R2", "P1", r2_one_name_three_roles, "one name, three roles"),
